@@ -171,6 +171,12 @@ def run(ctx):
             lt, rt = f.nodes[f.strip(nd["l"])].get("tw") or "", f.nodes[f.strip(nd["r"])].get("tw") or ""
             if lt.startswith("f") or rt.startswith("f"):
                 continue
+            # one side is a byte count (by what it is read from, or - for an accumulated local - by what it is called): a count of
+            # cgroups times a percentage cannot come near 2^63
+            Xm = Expander(P, f)
+            BYTES = r"usage|memcurrent|mem_current|bytes|swap(total|used|_)|memory_(min|low|high|max|protection)|pg_scan|io_cost"
+            if not any(re.search(BYTES, f.text(o)) or re.search(BYTES, Xm(o)) for o in (nd["l"], nd["r"])):
+                continue
             n_mul += 1
             ctx.use(f)
             ctx.violation("byte-count-product-cannot-wrap:%s@%d" % (short(f), nd.get("line", 0)), "E-TYPE overflow (integer product of two run-time values)", f.loc(i),
